@@ -8,6 +8,8 @@ THEOREMS = [
     "GoaktVerif.C42.C42_holds",
     "GoaktVerif.C42.C42_safety_holds",
     "GoaktVerif.C42.C42_progress_holds",
+    "GoaktVerif.C42.C42_eventually_holds",
+    "GoaktVerif.C42.eventually_confirmed",
     "GoaktVerif.C42.C42_recover_is_script",
     "GoaktVerif.C42.Inv3.step",
     "GoaktVerif.C42.recover_progress",
@@ -24,8 +26,8 @@ INPKG = ["actor/zz_verif_c42.go"]
 HARNESS = "c42"
 TIMEOUT = 900
 MANIFEST = {
-    "level_text": "PARTIAL (volatile, unchunked path; no controller restart). Kernel-checked inductive invariant (Inv.step, Lemmas/C42) over an executable Lean model of BOTH controllers field by field, the two controller links as bags with drop / duplicate / reorder steps, lossy FIFO endpoint mailboxes, ticks and the endpoints' documented contract: for every window, every script of any length, the Deliveries handed to the consumer endpoint are 1,2,3,... without gap, each is the message the producer controller stored under that sequence with the produced payload, k+1 is first presented only after k was confirmed, and a sequence is re-presented only while it is the unconfirmed in-flight one (C42_safety_holds, stated through the Spec monitor that also judges the real trace). Also proved: neither controller ever takes its terminal failure path (C42_producer_never_fails under the endpoint contract and a valid window, C42_consumer_never_fails), the producer's unconfirmed buffer is exactly confirmedSeq+1..currentSeq (PCons.handle), and a NON-temporal progress theorem (C42_progress_holds): from every reachable state the five-step fault-free continuation tick, tick, deliver Register, deliver RegistrationAck, deliver timeout Request makes the producer adopt the consumer's watermark and puts the oldest unconfirmed message back in flight — no reachable state is stuck. C42_holds is the conjunction. The model is tied to the code by replaying every handler of the REAL producerController/consumerController step by step under scripted faults and comparing sent messages and all state fields with the Lean handlers.",
-    "level_note": "The chunked path (storeChunks, chunk run buffering/assembly, scanChunkRun / failWedgedChunkRun violations) is modelled in Model/C42c.lean and tied by the same step-by-step replay (including forged-message scripts for the terminal violation paths) and judged by a chunk-aware monitor (Spec/C42c), but the theorems are about the unchunked Model/C42 (the driver cross-checks the two models on every unchunked case). Not in the model: the durable producer queue, controller restart/relocation, MaxInt64 sequence exhaustion, sender authentication (always succeeds: one controller pair), remoting. 'Eventually confirmed' is not a temporal theorem. Trusted: the differential only sees generated scripts; uuid freshness modelled by counters; time.Now() in the gap-request limiter is an explicit input (harness uses a one-hour interval so no timer fires).",
+    "level_text": "PARTIAL (volatile, unchunked path; no controller restart). Kernel-checked inductive invariant (Inv.step, Lemmas/C42) over an executable Lean model of BOTH controllers field by field, the two controller links as bags with drop / duplicate / reorder steps, lossy FIFO endpoint mailboxes, ticks and the endpoints' documented contract: for every window, every script of any length, the Deliveries handed to the consumer endpoint are 1,2,3,... without gap, each is the message the producer controller stored under that sequence with the produced payload, k+1 is first presented only after k was confirmed, and a sequence is re-presented only while it is the unconfirmed in-flight one (C42_safety_holds, stated through the Spec monitor that also judges the real trace). Also proved: neither controller ever takes its terminal failure path (C42_producer_never_fails under the endpoint contract and a valid window, C42_consumer_never_fails), the producer's unconfirmed buffer is exactly confirmedSeq+1..currentSeq (PCons.handle), and a NON-temporal progress theorem (C42_progress_holds): from every reachable state the five-step fault-free continuation tick, tick, deliver Register, deliver RegistrationAck, deliver timeout Request makes the producer adopt the consumer's watermark and puts the oldest unconfirmed message back in flight — no reachable state is stuck. Also C42_eventually_holds, the reachability form of 'every produced message is eventually confirmed': from every reachable state there exists a finite continuation without drops, duplicates or producer-endpoint activity after which every stored message is confirmed (induction on currentSeq - consumer confirmedSeq over rounds of recover / deliver / tick / endpoint confirmations). C42_holds is the conjunction. The model is tied to the code by replaying every handler of the REAL producerController/consumerController step by step under scripted faults and comparing sent messages and all state fields with the Lean handlers.",
+    "level_note": "The chunked path (storeChunks, chunk run buffering/assembly, scanChunkRun / failWedgedChunkRun violations) is modelled in Model/C42c.lean and tied by the same step-by-step replay (including forged-message scripts for the terminal violation paths) and judged by a chunk-aware monitor (Spec/C42c), but the theorems are about the unchunked Model/C42 (the driver cross-checks the two models on every unchunked case). Not in the model: the durable producer queue, controller restart/relocation, MaxInt64 sequence exhaustion, sender authentication (always succeeds: one controller pair), remoting. 'Eventually confirmed' is proved as reachability (exists a continuation), not as a temporal statement under fairness. Trusted: the differential only sees generated scripts; uuid freshness modelled by counters; time.Now() in the gap-request limiter is an explicit input (harness uses a one-hour interval so no timer fires).",
     "technique": "Lean 4 inductive invariant over all fault schedules of an executable model of both controllers + per-step differential replay of the real handlers",
 }
 TRUSTED = [
